@@ -91,4 +91,45 @@ example : mlsRewrite { nlStr := [10], indStr := [32, 32], contStr := [32, 32, 32
     = some [39,39,39,10, 32,32,32,32,32,32,97,32,32,10, 10, 32,32,32,32,32,32,32,32,98,10, 32,32,32,32,32,32,39,39,39] := by
   decide +kernel
 
+/-- the indentation the re-indenter writes in front of every non-empty interior line and of the closing quotes -/
+def newIndent (S : Settings) (ind cont : Nat) : Bytes := replicateBytes ind S.indStr ++ replicateBytes cont S.contStr
+
+/-- an interior line after re-indentation, without its terminator -/
+def lineText (S : Settings) (ind cont : Nat) (v : Bytes) : Bytes := if v.isEmpty then [] else newIndent S ind cont ++ v
+
+theorem renderLine_eq (S : Settings) (ind cont : Nat) (v : Bytes) :
+    renderLine S ind cont v = S.nlStr ++ lineText S ind cont v := by
+  unfold renderLine lineText newIndent
+  split <;> simp
+
+theorem isPrefixOf_self_append (a b : Bytes) : a.isPrefixOf (a ++ b) = true := by
+  induction a with
+  | nil => simp
+  | cons x a ih => simp [ih]
+
+theorem lineValue_lineText (S : Settings) (ind cont : Nat) (v : Bytes) :
+    lineValue (newIndent S ind cont) (lineText S ind cont v) = some v := by
+  unfold lineValue lineText
+  by_cases hv : v.isEmpty = true
+  · have : v = [] := by simpa using hv
+    subst this
+    simp only [List.isEmpty_nil, if_true]
+    by_cases hb : (newIndent S ind cont).isPrefixOf [] = true
+    · simp [hb]
+    · simp [hb]
+  · simp only [hv, Bool.false_eq_true, if_false, isPrefixOf_self_append, if_true]
+    simp
+
+/-- **the value survives.**  Reading the re-indented interior lines (and the closing-quote line)
+    relative to the new indentation gives back exactly the values they had relative to the old one:
+    nothing but the common indentation changed — trailing blanks, blank lines and over-indentation
+    included. -/
+theorem mls_values_preserved (S : Settings) (ind cont : Nat) (vs : List Bytes) :
+    (vs.map (lineText S ind cont)).mapM (lineValue (newIndent S ind cont)) = some vs := by
+  induction vs with
+  | nil => rfl
+  | cons v vs ih =>
+    simp only [List.map_cons, List.mapM_cons, lineValue_lineText, ih]
+    rfl
+
 end Pasfmt.C12
